@@ -281,18 +281,35 @@ func (e *codecEnv) runCompositeNonCompactProgram(rng *rand.Rand, T uint32, emit 
 	return e.emitRegisters(ledger, emit)
 }
 
-// 3. the last digest level the encoder accepts, and one beyond
+// 3. the last digest level the encoder accepts, and one beyond: for the deepest `hkeyElements`
+// (keys that collide on every level but the last one used) and for the deepest `singleElements`
+// (keys that collide on every level of the digester)
 func (e *codecEnv) runDigestLevelProgram(rng *rand.Rand, emit bool) {
 	maxLevel := uint(atree.VerifConsts()["maxDigestLevel"])
-	for _, L := range []uint{maxLevel, maxLevel + 1} {
+	for _, c := range []struct {
+		L        uint // levels of the caller-supplied digester
+		distinct int  // the level at which the keys differ (-1: never)
+		deepest  uint // the deepest level an elements group reaches
+	}{
+		{maxLevel + 1, int(maxLevel), maxLevel},     // hkeyElements at maxDigestLevel: must commit
+		{maxLevel, -1, maxLevel},                    // singleElements at maxDigestLevel: must commit
+		{maxLevel + 2, int(maxLevel) + 1, maxLevel + 1}, // hkeyElements one level beyond: must be refused
+		{maxLevel + 1, -1, maxLevel + 1},            // singleElements one level beyond: must be refused
+	} {
 		atree.VerifSetThreshold(1024)
 		ledger := hx.NewLedger()
 		ps := hx.NewStorage(ledger)
 		addr := hx.MkAddr(uint64(1 + rng.Intn(1<<16)))
 		if emit {
-			e.w.L("CFG T=1024 directed digest-levels=%d", L)
+			e.w.L("CFG T=1024 directed digest-levels=%d distinct-at=%d", c.L, c.distinct)
 		}
-		b := &hx.TableDigesterBuilder{L: L, Fn: func(k hx.TV, l uint) uint64 { return 7 + uint64(l) }}
+		distinct := c.distinct
+		b := &hx.TableDigesterBuilder{L: c.L, Fn: func(k hx.TV, l uint) uint64 {
+			if int(l) == distinct {
+				return 1000 + k.Pay
+			}
+			return 7 + uint64(l)
+		}}
 		m, err := atree.NewMap(ps, addr, b, hx.TI(3))
 		if err != nil {
 			e.directedFail(err.Error())
@@ -300,18 +317,21 @@ func (e *codecEnv) runDigestLevelProgram(rng *rand.Rand, emit bool) {
 		}
 		for i := 0; i < 3; i++ {
 			if _, err := m.Set(hx.CompareKey, hx.HashInput, hx.TV{Size: 9, Pay: uint64(i + 1)}, hx.TV{Size: 4, Pay: uint64(i)}); err != nil {
-				e.violation("C12", fmt.Sprintf("set under a fully colliding %d-level digester failed: %v", L, err))
+				e.violation("C12", fmt.Sprintf("set under a colliding %d-level digester failed: %v", c.L, err))
 				return
 			}
 		}
 		e.emitWriteSet(ps, emit)
+		if e.encPanic {
+			return
+		}
 		err = ps.FastCommit(1)
 		switch {
-		case L <= maxLevel && err != nil:
-			e.violation("C07", fmt.Sprintf("a map whose collision groups reach digest level %d (= maxDigestLevel) cannot be committed: %v", L, err))
-		case L > maxLevel && err == nil:
-			e.violation("C07", fmt.Sprintf("a map with a group at digest level %d (> maxDigestLevel %d) was committed; the level is written in one byte and checked by nobody else", L, maxLevel))
-		case L > maxLevel:
+		case c.deepest <= maxLevel && err != nil:
+			e.violation("C07", fmt.Sprintf("a map whose collision groups reach digest level %d (<= maxDigestLevel %d) cannot be committed: %v", c.deepest, maxLevel, err))
+		case c.deepest > maxLevel && err == nil:
+			e.violation("C07", fmt.Sprintf("a map with a group at digest level %d (> maxDigestLevel %d) was committed; nobody else checks the level", c.deepest, maxLevel))
+		case c.deepest > maxLevel:
 			e.st.Hit("observation:digest-level-limit")
 			if len(ledger.Seg) != 0 {
 				e.violation("C03", "a commit that failed while encoding wrote registers")
@@ -417,6 +437,9 @@ func (e *codecEnv) runExtraDataLimitProgram(rng *rand.Rand, T uint32, kind int, 
 	}
 	// exactly `limit` entries: must encode, commit and reload
 	e.emitWriteSet(ps, emit)
+	if e.encPanic {
+		return
+	}
 	if err := ps.FastCommit(1); err != nil {
 		e.violation("C07", fmt.Sprintf("%s: a slab with %d inlined-extra-data entries (indexes 0..%d) cannot be committed: %v", kindName, limit, limit-1, err))
 		return
@@ -441,6 +464,9 @@ func (e *codecEnv) runExtraDataLimitProgram(rng *rand.Rand, T uint32, kind int, 
 	e.obsDetail = fmt.Sprintf("T=%d, one %T with %d inlined children of kind %s (%d entries in the shared section)", T, rootSlab(), count, kindName, count)
 	e.emitWriteSet(ps, emit)
 	e.obsDetail = ""
+	if e.encPanic {
+		return
+	}
 	err = ps.FastCommit(1)
 	if err == nil {
 		// (a mutant that lifts the limit: the registers hold truncated indexes; the reload below and
@@ -578,6 +604,9 @@ func (e *codecEnv) runNestingWalk(rng *rand.Rand, kind string, maxDepth int, emi
 		e.nestWalk = true
 		e.emitWriteSet(ps, emit)
 		e.nestWalk = false
+		if e.encPanic {
+			return
+		}
 		if err := ps.FastCommit(1); err != nil {
 			e.violation("C07", fmt.Sprintf("nesting walk %s depth %d: commit failed: %v", kind, depth, err))
 			return
